@@ -139,8 +139,13 @@ class Engine:
             hop = T.between(1, block - 1)
             hop_mode = "lt"
         elif ovl == 2:
-            m = T.draw(3)
-            if m == 0 and block and block > 0:
+            m = T.draw(4)
+            if m == 3 and block and block > 0:
+                # hop_dur < block_dur, yet both floor to the same number of
+                # samples: the overlapping reader with zero overlap
+                hop = block
+                hop_mode = "lt_same"
+            elif m == 0 and block and block > 0:
                 hop = block
                 hop_mode = "eq"
             elif m == 1 and block and block > 0:
@@ -161,6 +166,18 @@ class Engine:
         else:
             length = T.between(0, 80)
         length = max(0, length)
+        huge = T.draw(160 if tier == "quick" else 60) == 1
+        if huge:
+            # beyond any plausible internal buffer threshold (> 1 MiB pulled)
+            length = (1 << 20) // (sw * ch) + T.between(2000, 60000)
+            block = T.between(20, 400)
+            if prop == "C19":
+                # many thousands of reads before the first rewind
+                block = T.between(8, 60)
+            if hop_mode == "lt":
+                hop = T.between(block // 3, block - 1)
+            elif hop_mode != "none":
+                hop, hop_mode = None, "none"
         mr = None
         mr_frac = 0
         if T.draw(3) == 0:
@@ -177,6 +194,7 @@ class Engine:
             mr_frac = T.choice([0, 0.25, -0.25, 0.4, 0.5, 0.5])
         exact = bool(T.draw(2))
         pre_open = T.weighted([(5, 0), (1, 1), (1, 2), (1, 3)])
+        preroll = T.weighted([(5, 0), (1, 1), (1, 3), (1, 7)])
         record = bool(T.draw(2)) if prop == "C19" else (T.draw(4) == 0)
         use_recorder_class = bool(T.draw(2))
         ops = []
@@ -188,7 +206,8 @@ class Engine:
             nops = T.between(1, 40 if tier == "thorough" else 24)
             for _ in range(nops):
                 ops.append(T.weighted([(6, "read"), (2, "rewind"),
-                                       (1, "data"), (1, "read3")]))
+                                       (1, "data"), (1, "read3"),
+                                       (1, "readall")]))
             sc_extra = 0
         return {"prop": prop, "kind": kind, "fmt": [sw, ch, sr],
                 "block": block, "hop": hop, "hop_mode": hop_mode,
@@ -196,7 +215,8 @@ class Engine:
                 "length": length, "max_read_samples": mr,
                 "max_read_frac": mr_frac, "record": record,
                 "recorder_class": use_recorder_class, "ops": ops,
-                "extra_reads": sc_extra, "pre_open_reads": pre_open}
+                "extra_reads": sc_extra, "pre_open_reads": pre_open,
+                "preroll": preroll}
 
     # ------------------------------------------------------------- execute
     def _dur(self, samples, sr, exact):
@@ -215,14 +235,21 @@ class Engine:
         sw, ch, sr = sc["fmt"]
         bps = sw * ch
         length = sc["length"]
-        data = C.synth([1] * 0, 1, sw, ch)  # empty
-        data = b"".join(C.make_window(i, (i % 3) != 2, 1, sw, ch)
-                        for i in range(length))
+        big = False
+        if length > 5000:
+            unit_ = bytes(range(1, 252))
+            data = (unit_ * (length * bps // len(unit_) + 1))[:length * bps]
+            big = True
+        else:
+            data = b"".join(C.make_window(i, (i % 3) != 2, 1, sw, ch)
+                            for i in range(length))
         block = sc["block"]
         hop = sc["hop"]
         trace = []
         out = {"violation": None, "error": None, "steps": 0, "simtime": 0.0,
                "faults": {}, "probes": {}, "nontrivial": False}
+        if big:
+            out["probes"]["stream_over_1MiB"] = 1
 
         def V(clause, detail, sig=None):
             out["violation"] = {"clause": clause, "detail": str(detail)[:1200],
@@ -244,6 +271,12 @@ class Engine:
         if hop is not None:
             if sc["hop_mode"] == "eq":
                 hd = bd
+            elif sc["hop_mode"] == "lt_same":
+                bd = (block + 0.5) / sr
+                hd = (block + 0.25) / sr
+                if int(bd * sr) != block or int(hd * sr) != block \
+                        or not hd < bd:
+                    return self._skip(out)
             else:
                 hd = self._dur(hop, sr, sc["exact_dur"])
                 if int(hd * sr) != hop:
@@ -275,10 +308,24 @@ class Engine:
             if kind == "bytes":
                 inp = data
                 kw = {"sr": sr, "sw": sw, "ch": ch}
-            elif kind == "buffer":
-                inp = BufferAudioSource(data, sr, sw, ch)
-            elif kind == "sim":
-                inp = src_obj = sources.SimAudioSource(data, sr, sw, ch)
+            elif kind in ("buffer", "sim"):
+                if kind == "buffer":
+                    inp = BufferAudioSource(data, sr, sw, ch)
+                else:
+                    inp = src_obj = sources.SimAudioSource(data, sr, sw, ch)
+                pr = min(sc.get("preroll", 0), length)
+                if pr:
+                    # the caller has already consumed a pre-roll from the
+                    # source object before handing it to the reader: the
+                    # reader's stream is what remains
+                    inp.open()
+                    inp.read(pr)
+                    data = data[pr * bps:]
+                    length -= pr
+                    out["probes"]["source_with_preroll"] = 1
+                    if src_obj is not None:
+                        src_obj.served = []
+                        src_obj.reads = 0
             elif kind in ("raw_eager", "raw_lazy"):
                 tmp = C.scratch_dir()
                 inp = os.path.join(tmp, "a.raw")
@@ -345,15 +392,19 @@ class Engine:
                     return V("C10.1", "block_size %r != floor(block_dur*rate) "
                              "= %r" % (reader.block_size, block),
                              "C10.1:block_size")
-                if sc["hop_mode"] == "lt" and reader.hop_size != hop:
+                if sc["hop_mode"] in ("lt", "lt_same") \
+                        and reader.hop_size != hop:
                     return V("C10.1", "hop_size %r != %r" % (
                         reader.hop_size, hop), "C10.1:hop_size")
 
-            m_hop = hop if sc["hop_mode"] == "lt" else None
+            m_hop = hop if sc["hop_mode"] in ("lt", "lt_same") else None
             model = Model(data, bps, block, m_hop, max_samples)
             # reads before open(): outcome not judged (must not hand out
             # data), but they must leave no trace once the reader is opened
-            for _ in range(sc.get("pre_open_reads", 0)):
+            npre = sc.get("pre_open_reads", 0)
+            if out["probes"].get("source_with_preroll"):
+                npre = 0  # the caller has opened the source already
+            for _ in range(npre):
                 st_, got_ = self._call(reader.read)
                 trace.append(["read-before-open", st_, _short(got_)])
                 if st_ == "ok" and got_ is not None:
@@ -497,8 +548,9 @@ class Engine:
         src_reads_at_rewind = None
         for i, op in enumerate(sc["ops"]):
             out["steps"] += 1
-            if op in ("read", "read3"):
-                for _ in range(3 if op == "read3" else 1):
+            if op in ("read", "read3", "readall"):
+                nrep = {"read": 1, "read3": 3, "readall": 10 ** 9}[op]
+                for _ in range(nrep):
                     want = model.read()
                     st, got = self._call(reader.read)
                     trace.append([op, i, st, None if got is None else
@@ -524,6 +576,10 @@ class Engine:
                         nonempty += 1
                         if rewound:
                             reads_after_rewind += 1
+                    elif op == "readall":
+                        break
+                if nonempty > 2048:
+                    out["probes"]["more_than_2048_reads"] = 1
             elif op == "rewind":
                 if not record:
                     st, got = self._call(lambda: reader.rewind())
